@@ -303,6 +303,28 @@ func (u *upDisp) VarlinkDispatch(ctx context.Context, c varlink.Call, method str
 			return c.ReplyInvalidParameter(ctx, "upgrade")
 		}
 		// the upgraded protocol's bytes start immediately after the request frame
+		if u.buf < 0 {
+			// a line-oriented upgraded protocol: delimiter reads ('-' ends a record), u.buf == -2 mixes in raw reads
+			for len(u.st.got) < len(c18Payload) {
+				var b []byte
+				var err error
+				if strings.Contains(c18Payload[len(u.st.got):], "-") && !(u.buf == -2 && len(u.st.got) == 0) {
+					b, err = c.Conn.ReadBytes(ctx, '-')
+				} else {
+					raw := make([]byte, 3)
+					var n int
+					n, err = c.Conn.Read(ctx, raw)
+					b = raw[:n]
+				}
+				u.st.got += string(b)
+				if err != nil {
+					u.st.fail = fmt.Sprintf("handler read failed after %q: %v", u.st.got, err)
+					return err
+				}
+			}
+			u.st.done = true
+			return c.Reply(ctx, map[string]int{"ok": 1})
+		}
 		buf := make([]byte, u.buf)
 		for len(u.st.got) < len(c18Payload) {
 			n, err := c.Conn.Read(ctx, buf)
@@ -504,8 +526,11 @@ func scenariosC18(tier string) []Scen {
 	}
 	// end to end
 	req := `{"method":"t.up.ToService","upgrade":true}` + "\x00"
-	for _, buf := range []int{1, 7, 4096} {
+	for _, buf := range []int{1, 7, 4096, -1, -2} {
 		for _, cut := range []int{-2, -1} {
+			if buf < 0 {
+				continue // negative: the service handler reads with the delimiter primitive
+			}
 			d := c18E2E{Side: "client", Cut: cut, Buf: buf}
 			out = append(out, Scen{Desc: d, Bound: 2, Body: c18E2EBody(d), Check: c18Check, Obs: c18Obs})
 		}
